@@ -59,6 +59,11 @@ def tasks(tier, seed, selftest=False):
         for qy in QUERY:
             S.append(dict(family="U2", skeleton=tuple(p) + (qy,), timebox=10 if q else 600))
             S.append(dict(family="D3", skeleton=tuple(p) + (qy,), timebox=12 if q else 900))
+    # four free variables: the simulation budget (1000 x variables) exceeds the first pass only from here on
+    for fam in ("P:SW2+SW2", "B22"):
+        for qy in ("seeds", "cands"):
+            S.append(dict(family=fam, skeleton=(qy,), timebox=20 if q else 600))
+            S.append(dict(family=fam, skeleton=("succ", qy), timebox=15 if q else 600))
     # fine mode: inside symbolic_attractor_test the path is class-constant, so "returned within the budget" holds
     # for every network of the class
     for p in ((), ("succ",), ("fullbfs",)):
@@ -80,6 +85,6 @@ def main(tier, seed, t0, selftest=False):
                          replay_timeout=60, max_replays=3,
                          bounds={"budget": "20 s wall per path-class representative (<= 4 variables); replay time-out 60 s",
                                  "operations": "single: " + ",".join(SINGLE) + "; queries " + ",".join(QUERY) + " on a symbolic node after prefixes " + str(PREFIX),
-                                 "families": "U2, D3 (quick, time-boxed); + U3 cubes, B22, CH4, S2C2 (thorough)",
+                                 "families": "U2, D3, P:SW2+SW2, B22 (quick, time-boxed); + U3 cubes, CH4, S2C2 (thorough)",
                                  "note": "termination inside the opaque attractor region is established per representative, not per class"},
                          assumptions=["a call that does not return within 20 s on a <= 4-variable network is treated as non-terminating (confirmed by a 60 s replay)"])
